@@ -63,6 +63,16 @@ fn main() {
             probe(&src, w, q);
         }
         "probe-scenarios" => probe_scenarios(),
+        "session" => {
+            let mut s = sim::session::Session::new(2, Default::default()).unwrap();
+            for line in &args[2..] {
+                let t = Instant::now();
+                let r = s.eval(line);
+                println!("{:?}  => {:?}   [{:?}]", line, r, t.elapsed());
+            }
+            println!("vars: {:?}", s.variables());
+            s.close();
+        }
         id if id.starts_with('C') => {
             let mut tier = match std::env::var("VERIF_TIER").as_deref() {
                 Ok("thorough") => Tier::Thorough,
